@@ -1,5 +1,5 @@
 """C17 — single typing errors are rejected (DESIGN.md §2 C17)."""
-from .. import core, e2
+from .. import core, e2, seeds as seedmod
 from ..core import Result
 from ..tables.c17_modules import MODULES
 
@@ -35,6 +35,8 @@ def _neigh(v, span, transp):
 def _check_number(res, name, m, v, spanf, transp, optsets=({},)):
     n = 0
     t = transp(v) if callable(transp) else transp
+    # the statement is about a number that is valid: under an option only where v is valid with that option
+    optsets = [o for o in optsets if not o or e2._accepts(m, v, o)]
     for w, kind in _neigh(v, list(spanf(v)), t):
         for opts in optsets:
             n += 1
@@ -101,6 +103,26 @@ def work(item):
             continue
         used += 1
         n += _check_number(res, name, m, v, spanf, transp, optsets if used <= 200 else ({},))
+    # options that change which numbers are valid (other alphabet / table): the numbers valid under that option
+    for o in optsets:
+        if o and list(o)[0] in ('table', 'alphabet'):
+            extra = []
+            if 'alphabet' in o:
+                # the documented numbers transliterated into this alphabet, last character completed
+                al = o['alphabet']
+                for s_, v in seedmod.seeds(name, 4):
+                    t = ''.join(al[int(ch, 36) % len(al)] if ch.isalnum() and ch.isascii() else ch for ch in v)
+                    extra += [t[:-1] + c for c in al]
+            try:
+                vals_o, st_o = e2.valid_set(name, m, tier, kw=o, cap=200 if tier != 'thorough' else 1500, extra_seeds=extra)
+            except Exception:
+                continue
+            for v in vals_o:
+                if guard and not guard(v):
+                    continue
+                n += _check_number(res, name, m, v, spanf, transp, (o,))
+            res['extra'].setdefault('valid_numbers_under_option', {})['%s %s' % (name, sorted(o)[0])] = \
+                res['extra'].get('valid_numbers_under_option', {}).get('%s %s' % (name, sorted(o)[0]), 0) + len(vals_o)
     res['states'] = n + len(values)
     res['transitions'] = n + stats['edges']
     res['evaluations'] = n + stats['tried']
